@@ -50,7 +50,7 @@ fn show_dec(r: &Option<Result<u64, ()>>) -> String {
     }
 }
 
-fn do_enc(cx: &mut Ctx, w: u32, n: u64) {
+pub fn do_enc(cx: &mut Ctx, w: u32, n: u64) {
     let line = format!("UINT enc {} {}", w, n);
     let r = enc_w(w, n);
     cx.case(&line, &r.as_ref().map(|b| hex(b)).unwrap_or("panic".into()));
@@ -70,7 +70,7 @@ fn do_enc(cx: &mut Ctx, w: u32, n: u64) {
     }
 }
 
-fn do_dec(cx: &mut Ctx, w: u32, b: &[u8]) {
+pub fn do_dec(cx: &mut Ctx, w: u32, b: &[u8]) {
     let line = format!("UINT dec {} {}", w, hex(b));
     let r = dec_w(w, b);
     cx.case(&line, &show_dec(&r));
@@ -121,7 +121,7 @@ pub fn utf8_ok(b: &[u8]) -> bool {
     true
 }
 
-fn do_sdec(cx: &mut Ctx, b: &[u8]) {
+pub fn do_sdec(cx: &mut Ctx, b: &[u8]) {
     let line = format!("UINT sdec {}", hex(b));
     let r = OptionValueString::try_from(b.to_vec());
     let s = match &r {
@@ -164,7 +164,7 @@ fn random_string(rng: &mut Rng) -> String {
 
 // ---- accessor sequences
 
-fn acc_case(cx: &mut Ctx, ops: &[String]) {
+pub fn acc_case(cx: &mut Ctx, ops: &[String]) {
     let line = format!("UINT acc {}", ops.join(";"));
     // reference: per option number, the list of raw values
     let mut refm: std::collections::BTreeMap<u16, Vec<Vec<u8>>> = Default::default();
